@@ -16,4 +16,3 @@ Definition amount_patterns : list string := ["amount"; "debit"; "charge"; "trans
 Definition location_patterns : list string := ["location"; "city"; "state"; "city/state"; "region"].
 (* FormatSpec(date_format=...) returned by auto_detect_csv_format *)
 Definition detect_date_format : string := "%m/%d/%Y".
-
